@@ -96,3 +96,18 @@ Example C11_witness :
   result_values f sc = Some [TmZero] /\ failures f sc = [] /\
   calls f sc = [(false, 0, [TmParam 0]); (true, 1, [TmParam 0])].
 Proof. vm_compute. repeat split. Qed.
+
+(* the same order for a predicate that returns true: the task job, run before the predicate's
+   job, finds the flag unset - the task function is never invoked and the Results hold the
+   zero value instead of the task's output *)
+Theorem C11_lost_predicate_edge_refuted :
+  let f := {| gparams := [0]; gresults := [1];
+              gtasks := [ {| kins := [0]; kouts := [1]; kpred := Some [0]; kinvoke := false; kfallback := false; khaserr := false |} ] |} in
+  let sc := {| sc_task := fun _ => OOK; sc_pred := fun _ => PTRUE |} in
+  xcalls (run f sc [FP 0; FT 0]) = [(true, 0, [Some (TmParam 0)]); (false, 0, [Some (TmParam 0)])] /\
+  results f (run f sc [FP 0; FT 0]) = Some [Some (TmOut 0 0 [TmParam 0])] /\
+  valid f sc [FT 0; FP 0] = false /\
+  xcalls (run f sc [FT 0; FP 0]) = [(true, 0, [Some (TmParam 0)])] /\
+  results f (run f sc [FT 0; FP 0]) = Some [Some TmZero].
+Proof. vm_compute. repeat split. Qed.
+Print Assumptions C11_lost_predicate_edge_refuted.
